@@ -18,7 +18,7 @@ func (sockAddrConn) RemoteAddr() net.Addr {
 }
 func (sockAddrConn) LocalAddr() net.Addr { return &net.TCPAddr{IP: net.IPv4(192, 0, 2, 1), Port: 443} }
 
-// KNOWN FINDING (C12.R17), fails on the real code. A v1 header "PROXY UNKNOWN" declares no addresses: the receiver
+// A v1 header "PROXY UNKNOWN" declares no addresses: the receiver
 // goes on with the connection's own (PROXY protocol specification, section 2.1). The library's wrapper reports ":0".
 func TestUnknownHeaderKeepsTheSocketsAddresses(t *testing.T) {
 	ctx, cancel := caddy.NewContext(caddy.Context{Context: context.Background()})
